@@ -1,4 +1,5 @@
 import Gallia.Proofs.Lemmas.Loss
+import Gallia.Proofs.Lemmas.LossSys
 import Gallia.Proofs.Lemmas.HsfzSys
 import Gallia.Gen.C08Loss
 import Gallia.Gen.C06Doip
@@ -557,5 +558,224 @@ example : ¬ ∃ w2, wReconnect linesProto { exScn with restart := 3000 }
   rw [reconnect_once _ _ _ (by decide)]; decide
 -- hypotheses of `loss_bounded_no_timeout` are satisfiable (eof, connection state of `Conn.init`)
 example : exScn.cut ≠ .silence ∧ (exScn.delta.isSome = false → exWorld.c0.ended = true) := by decide
+
+/-! ### whole executions (`Model/LossSys.lean`): any event list, any `max_retry`
+
+  The theorems below are stated for one client call issued in ANY state `s` (whatever the events before it made of the
+  connection, the listener and the peer) against ANY rest `es` of the event list (whatever the peer does while the call
+  runs: deliver any bytes, cut, refuse / accept connections, lose routing activations, let time pass) - which is every
+  call of every execution `LossSys.run` of every event list. -/
+
+section Sys
+open Gallia.LossSys (SProto Sys SEv PEv PConn)
+
+/-- every call with a caller timeout `t` returns or raises - for every `max_retry = n`, every state, every event list -
+    within `callBudget`: per attempt `min t ack + t` (acknowledgement, first reply), the ResponsePending loop
+    (`pendBudget`), and per retry the backoff `retry_wait * 2^i` plus the reconnect window (10 s DoIP, one connection
+    attempt otherwise: set-up of the reconnect included) -/
+theorem sys_every_call_ends (P : SProto Q) (cls : Bytes → Client.Ev) (c : LossSys.CCfg) (req : Bytes) (t : Nat)
+    (s : Sys Q) (es : List SEv) :
+    (LossSys.request P cls c req (some t) s es).1 ≠ .blocked ∧
+    (LossSys.request P cls c req (some t) s es).2.1.now ≤ s.now + LossSys.callBudget P c.lim t true c.maxRetry 0 := by
+  have := LossSys.attempts_spec P cls c.lim req t true (by simp) c.maxRetry 0 s es (.missing false) (by simp)
+  exact ⟨this.1, this.2.1⟩
+
+/-- the exact bound when the peer sends no ResponsePending: `(n+1) * (min t ack + t)` plus, per retry `i < n`,
+    `retry_wait * 2^i + window`; attained by a peer that stays silent (examples below) -/
+theorem sys_every_call_ends_exact (P : SProto Q) (cls : Bytes → Client.Ev) (hnp : ∀ d, cls d ≠ .pending) (c : LossSys.CCfg)
+    (req : Bytes) (t : Nat) (s : Sys Q) (es : List SEv) :
+    (LossSys.request P cls c req (some t) s es).2.1.now ≤ s.now + LossSys.callBudget P c.lim t false c.maxRetry 0 := by
+  have := LossSys.attempts_spec P cls c.lim req t false (fun _ => hnp) c.maxRetry 0 s es (.missing false) (by simp)
+  exact this.2.1
+
+/-- the closed form of the exact bound -/
+theorem callBudget_closed (P : SProto Q) (lim : Client.Limits) (t k i : Nat) :
+    LossSys.callBudget P lim t false k i =
+      (k + 1) * (min t P.ackTime + t) + k * LossSys.window P + (List.range k).foldr (fun j a => LossSys.waitMs lim (i + j) + a) 0 := by
+  induction k generalizing i with
+  | zero => simp [LossSys.callBudget, LossSys.attemptBudget]
+  | succ k ih =>
+    simp only [LossSys.callBudget, LossSys.attemptBudget, ih, Bool.false_eq_true, if_false, if_true]
+    rw [List.range_succ_eq_map, List.foldr_cons, List.foldr_map]
+    simp only [Nat.add_zero, Nat.succ_mul, Nat.add_assoc, Nat.add_comm 1]
+    have : ∀ j, LossSys.waitMs lim (i + (j + 1)) = LossSys.waitMs lim (i + 1 + j) := by intro j; congr 1; omega
+    simp only [this]
+    omega
+
+/-- the request is written exactly once per attempt, on the connection the transport holds when the attempt starts -/
+theorem sys_retries_exact_attempt (P : SProto Q) (cls : Bytes → Client.Ev) (lim : Client.Limits) (req : Bytes) (t : Nat)
+    (retry : Bool) (i : Nat) (s : Sys Q) (es : List SEv) (last : Out) :
+    (LossSys.attemptStep P cls lim req (some t) retry i s es last).sys.wire = s.wire ++ [(s.conn.idx, s.now, req)] :=
+  (LossSys.attemptStep_spec P cls lim req t retry i s es last true (by simp)).2.1
+
+/-- a call with `max_retry = n` writes the request at least once and at most `n + 1` times -/
+theorem sys_retries_exact (P : SProto Q) (cls : Bytes → Client.Ev) (c : LossSys.CCfg) (req : Bytes) (t : Nat)
+    (s : Sys Q) (es : List SEv) :
+    s.wire.length + 1 ≤ (LossSys.request P cls c req (some t) s es).2.1.wire.length ∧
+    (LossSys.request P cls c req (some t) s es).2.1.wire.length ≤ s.wire.length + c.maxRetry + 1 := by
+  have := LossSys.attempts_spec P cls c.lim req t true (by simp) c.maxRetry 0 s es (.missing false) (by simp)
+  exact this.2.2
+
+/-- close is idempotent in every state -/
+theorem sys_close_idempotent (s : Sys Q) : LossSys.closeConn (LossSys.closeConn s) = LossSys.closeConn s := rfl
+
+/-- recovery, for every `max_retry = k + 1 ≥ 1`: when the loss surfaces in the first attempt as a connection error or
+    end-of-stream (`hloss`) and the peer accepts connections again by the end of the backoff, answers routing
+    activations and answers the request (`Answers`: acknowledged and read as the message `d`, a final reply), the call
+    returns exactly that reply, through exactly one new connection - whatever state the loss left behind -/
+theorem sys_recovers (P : SProto Q) (cls : Bytes → Client.Ev) (lim : Client.Limits) (req : Bytes) (tmo : Option Nat) (k : Nat)
+    (s : Sys Q) (es : List SEv) (r : PRes) (s1 : Sys Q) (es1 : List SEv) (b d : Bytes)
+    (hloss : LossSys.opRequest P s es req tmo = (r, s1, es1)) (hr : r = .connErr ∨ r = .eos)
+    (hup : s1.up = true) (hsrv : s1.serve = some b) (hra : s1.raOn = true) (hq : LossSys.Quiet es1)
+    (ha : LossSys.Answers P req b d) (hd : d ≠ []) (hcls : cls d = .posFinal) :
+    (LossSys.request P cls { maxRetry := k + 1, lim } req tmo s es).1 = .reply d ∧
+    (LossSys.request P cls { maxRetry := k + 1, lim } req tmo s es).2.1.nconn = s1.nconn + 1 :=
+  LossSys.recovers P cls lim req tmo k s es r s1 es1 b d hloss hr hup hsrv hra hq ha hd hcls
+
+/-- close is harmless: after `close()` - once or twice, in any state, also after a loss - the next request with
+    `max_retry ≥ 1` reconnects and returns the peer's reply (close, then reconnect, then request works) -/
+theorem sys_close_harmless (P : SProto Q) (cls : Bytes → Client.Ev) (lim : Client.Limits) (req : Bytes) (tmo : Option Nat) (k : Nat)
+    (s : Sys Q) (es : List SEv) (b d : Bytes)
+    (hup : s.up = true) (hsrv : s.serve = some b) (hra : s.raOn = true) (hq : LossSys.Quiet es)
+    (ha : LossSys.Answers P req b d) (hd : d ≠ []) (hcls : cls d = .posFinal) :
+    LossSys.closeConn (LossSys.closeConn s) = LossSys.closeConn s ∧
+    (LossSys.request P cls { maxRetry := k + 1, lim } req tmo (LossSys.closeConn s) es).1 = .reply d ∧
+    (LossSys.request P cls { maxRetry := k + 1, lim } req tmo (LossSys.closeConn s) es).2.1.nconn = s.nconn + 1 := by
+  refine ⟨rfl, ?_⟩
+  have h := LossSys.recovers P cls lim req tmo k _ es .connErr _ es b d
+    (LossSys.opRequest_closed P (LossSys.closeConn s) es req tmo rfl) (.inl rfl) hup hsrv hra hq ha hd hcls
+  exact h
+
+/-- a backlog of any length never hides the end of the stream: once the peer has closed / reset the connection (or the
+    transport is closed) every transport read returns at once - a queued message, end-of-stream or a connection error,
+    never a timeout, never blocked - with or without caller timeout -/
+theorem sys_backlog_read_ends (P : SProto Q) (s : Sys Q) (es : List SEv) (tmo : Option Nat)
+    (h : s.conn.closed = true ∨ s.conn.streamEnded = true) :
+    (LossSys.opRead P s es tmo).1 ≠ .blocked ∧ (LossSys.opRead P s es tmo).1 ≠ .timeout ∧
+    (LossSys.opRead P s es tmo).2.1.now = s.now ∧ (LossSys.opRead P s es tmo).2.2 = es :=
+  LossSys.opRead_ended P s es tmo h
+
+-- `Answers` is satisfiable: the line `62 01` answers on a line transport
+example : LossSys.Answers LossSys.linesS exReq [0x36, 0x32, 0x30, 0x31, 0x0A] [0x62, 0x01] :=
+  fun _ => ⟨_, _, rfl, rfl, rfl⟩
+
+/-- no fabrication over whole executions: whatever `request()` returns is the payload of a message that was completely
+    received on connection `j` (`FromConn`: it lies in the queue that connection has after peer deliveries on it), and
+    `j` is the connection the last write of the request went out on - the write of the attempt that returned it.  Every
+    reconnect starts from an empty queue and an empty reader buffer (`sys_retries_exact_conn`), so nothing received
+    before a reconnect is ever returned.  What the code does NOT guarantee - and the model shows (example below) - is
+    that the message was sent after the request: a late reply to an earlier, timed-out request on the SAME connection
+    is handed to the next request (and returned when it matches the request's service). -/
+theorem sys_no_fabrication (P : SProto Q) (hP : Laws P.toProto) (cls : Bytes → Client.Ev) (c : LossSys.CCfg) (req : Bytes) (t : Nat)
+    (s : Sys Q) (es : List SEv) (d : Bytes) (h : (LossSys.request P cls c req (some t) s es).1 = .reply d) :
+    ∃ j tw w0, LossSys.FromConn P j d ∧ (LossSys.request P cls c req (some t) s es).2.1.wire = w0 ++ [(j, tw, req)] :=
+  LossSys.attempts_origin P hP cls c.lim req t c.maxRetry 0 s es (.missing false) (by simp) d h
+
+/-- one attempt: a reply is read on the connection the attempt wrote the request to, with no reconnect in between -/
+theorem sys_no_fabrication_attempt (P : SProto Q) (hP : Laws P.toProto) (cls : Bytes → Client.Ev) (lim : Client.Limits)
+    (req : Bytes) (tmo : Option Nat) (retry : Bool) (i : Nat) (s : Sys Q) (es : List SEv) (last : Out) (d : Bytes)
+    (s1 : Sys Q) (es1 : List SEv) (h : LossSys.attemptStep P cls lim req tmo retry i s es last = .fin (.reply d) s1 es1) :
+    LossSys.Same s s1 ∧ LossSys.FromConn P s.conn.idx d :=
+  (LossSys.attemptStep_conn P hP cls lim req tmo retry i s es last).1 d s1 es1 h
+
+/-- the attempts of a call and their connections: an attempt that is followed by another one either left the
+    connection alone (timeout, busy: `Same` - the next write goes out on the same connection, no connection opened) or
+    ended with a loss that surfaced as ConnectionError / end-of-stream (`missing true`) and was followed by exactly one
+    reconnect: the next attempt runs on the newest connection, opened after the loss, with an empty queue and buffer;
+    an attempt that ended in a timeout (`missing false`) never reconnects -/
+theorem sys_retries_exact_conn (P : SProto Q) (hP : Laws P.toProto) (cls : Bytes → Client.Ev) (lim : Client.Limits)
+    (req : Bytes) (tmo : Option Nat) (retry : Bool) (i : Nat) (s : Sys Q) (es : List SEv) (last : Out) :
+    (∀ s1 es1 l, LossSys.attemptStep P cls lim req tmo retry i s es last = .next s1 es1 l →
+      LossSys.Same s s1 ∨ (l = .missing true ∧ retry = true ∧ LossSys.Renewed P s s1)) ∧
+    (∀ s1 es1, LossSys.attemptStep P cls lim req tmo retry i s es last = .next s1 es1 (.missing false) → LossSys.Same s s1) :=
+  (LossSys.attemptStep_conn P hP cls lim req tmo retry i s es last).2
+
+/-- what `sys_every_call_ends` says about one observation of an execution -/
+def GoodObs (P : SProto Q) (c : LossSys.CCfg) : LossSys.Obs → Prop
+  | .req o (some t) t0 t1 _ => o ≠ .blocked ∧ t1 ≤ t0 + LossSys.callBudget P c.lim t true c.maxRetry 0
+  | .rd r (some t) t0 t1 => r ≠ .blocked ∧ t1 ≤ t0 + t
+  | _ => True
+
+/-- whole executions: for every event list (and every start state) every `request()` issued with a caller timeout `t`
+    returns or raises within `callBudget`, and every transport read with a timeout within that timeout -/
+theorem sys_run_calls_end (P : SProto Q) (cl : Bytes → Client.Ev) (c : LossSys.CCfg) (fuel : Nat)
+    (s : Sys Q) (es : List SEv) (acc : List LossSys.Obs) (hacc : ∀ o ∈ acc, GoodObs P c o) :
+    ∀ o ∈ (LossSys.run P cl c fuel s es acc).2, GoodObs P c o := by
+  induction fuel generalizing s es acc with
+  | zero => simpa [LossSys.run] using hacc
+  | succ n ih =>
+    cases es with
+    | nil => simpa [LossSys.run] using hacc
+    | cons e es =>
+      unfold LossSys.run
+      have hext : ∀ (x : LossSys.Obs), GoodObs P c x → ∀ o ∈ acc ++ [x], GoodObs P c o := by
+        intro x hx o ho
+        rcases List.mem_append.mp ho with h | h
+        · exact hacc o h
+        · simp only [List.mem_singleton] at h; subst h; exact hx
+      cases e with
+      | peer pe => exact ih _ _ _ hacc
+      | close => exact ih _ _ _ (hext _ trivial)
+      | reconnect => exact ih _ _ _ (hext _ trivial)
+      | read tmo =>
+        have hg : GoodObs P c (.rd (LossSys.opRead P s es tmo).1 tmo s.now (LossSys.opRead P s es tmo).2.1.now) := by
+          cases tmo with
+          | none => trivial
+          | some t => exact LossSys.opRead_time P s es t
+        simp only
+        split
+        · exact hext _ hg
+        · exact ih _ _ _ (hext _ hg)
+      | request d tmo =>
+        have hg : GoodObs P c (.req (LossSys.request P cl c d tmo s es).1 tmo s.now (LossSys.request P cl c d tmo s es).2.1.now
+            (LossSys.request P cl c d tmo s es).2.1.nconn) := by
+          cases tmo with
+          | none => trivial
+          | some t => exact sys_every_call_ends P cl c d t s es
+        simp only
+        split
+        · exact hext _ hg
+        · exact ih _ _ _ (hext _ hg)
+
+/-- the three transports satisfy the hypothesis of the no-fabrication theorems -/
+theorem sys_laws : Laws LossSys.linesS.toProto ∧ (∀ cfg, Laws (LossSys.doipS cfg).toProto) ∧ (∀ cfg, Laws (LossSys.hsfzS cfg).toProto) :=
+  ⟨linesLaws, doipLaws, hsfzLaws⟩
+
+/-! examples: the hypotheses are satisfiable and the exact bound is attained -/
+
+theorem exCls_no_pending : ∀ d, exCls d ≠ .pending := by intro d; unfold exCls; split <;> simp
+
+def exSys : Sys Bytes := LossSys.Sys.init LossSys.linesS
+def exC (n : Nat) : LossSys.CCfg := { maxRetry := n, lim := Client.Limits.std }
+
+-- a silent peer on a line transport, max_retry = 2, timeout 500 ms: three attempts on the same connection, the call
+-- ends at exactly 3 * 500 + 200 + 400 = 2100 ms = the bound; three writes of the request, one connection
+example : (LossSys.request LossSys.linesS exCls (exC 2) exReq (some 500) exSys []).2.1.now = 2100 ∧
+    LossSys.callBudget LossSys.linesS Client.Limits.std 500 false 2 0 = 2100 ∧
+    (LossSys.request LossSys.linesS exCls (exC 2) exReq (some 500) exSys []).1 = .missing false ∧
+    (LossSys.request LossSys.linesS exCls (exC 2) exReq (some 500) exSys []).2.1.wire = [(0, 0, exReq), (0, 700, exReq), (0, 1600, exReq)] ∧
+    (LossSys.request LossSys.linesS exCls (exC 2) exReq (some 500) exSys []).2.1.nconn = 1 := by decide
+-- the peer closes 70 ms after the request and accepts again: the second attempt goes out on connection #1 after the
+-- backoff and returns the reply the peer sends there; the bytes of connection #0 (`62 f1` without newline) are gone
+example : (LossSys.request LossSys.linesS exCls (exC 1) exReq (some 500) exSys
+      [.peer (.advance 70), .peer (.deliver [0x36, 0x32, 0x66, 0x31]), .peer (.cut .eof), .peer (.advance 250),
+       .peer (.deliver [0x36, 0x32, 0x30, 0x31, 0x0A])]).1 = .reply [0x62, 0x01] := by decide
+-- max_retry = 0: the same loss ends the call with MissingResponse(cause = connection error) - no recovery
+example : (LossSys.request LossSys.linesS exCls (exC 0) exReq (some 500) exSys
+      [.peer (.advance 70), .peer (.cut .eof), .peer (.advance 250), .peer (.deliver [0x36, 0x32, 0x0A])]).1 = .missing true := by
+  decide
+-- a stale reply IS handed to the next request on the same connection (what the code does): the reply to the request
+-- that timed out arrives late and is returned to the follow-up request
+example : (LossSys.run LossSys.linesS exCls (exC 0) 10 exSys
+      [.request exReq (some 500), .peer (.advance 600), .peer (.deliver [0x36, 0x32, 0x0A]), .request exReq (some 500)] []).2.map
+      (fun | .req o _ _ _ _ => some o | _ => none) = [some (.missing false), some (.reply [0x62])] := by decide
+
+-- `GoodObs` is not vacuous: the observations of the run with the late reply above
+example : ∀ o ∈ (LossSys.run LossSys.linesS exCls (exC 0) 10 exSys
+      [.request exReq (some 500), .peer (.advance 600), .peer (.deliver [0x36, 0x32, 0x0A]), .request exReq (some 500)] []).2,
+    GoodObs LossSys.linesS (exC 0) o :=
+  sys_run_calls_end LossSys.linesS exCls (exC 0) 10 exSys _ [] (by simp)
+
+end Sys
 
 end Gallia.C08
